@@ -154,19 +154,38 @@ func (vc *VC) loopHeader(fr *frame, b *ssa.BasicBlock, st *State) {
 			vc.obligeClause(env, st, "inv", clauseName("inv.entry", i, c), "@"+tag, c)
 		}
 	}
-	// 2. what does the loop write? (dry run of the loop region)
-	writes := vc.dryRunLoop(fr, b, st)
-	// 3. forget
+	// the enclosing function's frame is an implicit loop invariant (established here, re-established on every back edge)
+	if fr.top && vc.contract != nil && vc.contract.HasModifies && vc.dry == 0 {
+		for _, f := range vc.frameFormulas(fr, st, nil) {
+			if f.havoc {
+				vc.oblige(st, "frame", "frame.havoc@"+tag, "an unspecified callee may modify anything", False)
+				continue
+			}
+			vc.oblige(st, "frame", fmt.Sprintf("frame[%s]@%s.entry", f.short, tag), "modifies clause (loop entry)", f.t)
+		}
+	}
+	// 2. forget the loop-carried SSA values first (so that the dry run below sees arbitrary iterations),
+	//    then find out what the loop writes (dry run of the loop region)
+	checkpoint := vc.script.nextID
 	for _, p := range vc.headerPhis(b) {
 		t := FromGo(p.Type())
 		v := vc.freshValue(p.Name()+":"+p.Comment+"@"+tag, t)
 		fr.env[p] = v
 	}
+	writes := vc.dryRunLoop(fr, b, st, checkpoint)
+	// 3. forget the heap locations written
 	vc.havocWrites(st, writes)
 	for _, p := range vc.headerPhis(b) {
 		vc.assumeAllocated(st, fr.env[p], FromGo(p.Type()))
 	}
 	vc.assumeStateAxioms(st)
+	if fr.top && vc.contract != nil && vc.contract.HasModifies {
+		for _, f := range vc.frameFormulas(fr, st, nil) {
+			if !f.havoc {
+				vc.assume(st, f.t)
+			}
+		}
+	}
 	// 4. assume invariants
 	if lc != nil {
 		env := vc.loopEnv(fr, b, st, nil)
@@ -188,12 +207,21 @@ func (vc *VC) loopBackEdge(fr *frame, from, header *ssa.BasicBlock, st *State) {
 	}
 	ord := fr.loopOrd[header]
 	lc := vc.loopContract(fr, ord)
-	if lc == nil {
-		return
-	}
 	tag := fmt.Sprintf("loop%d", ord)
 	if fr.hint != "" {
 		tag = fr.hint + ":" + tag
+	}
+	if fr.top && vc.contract != nil && vc.contract.HasModifies {
+		for _, f := range vc.frameFormulas(fr, st, nil) {
+			if f.havoc {
+				vc.oblige(st, "frame", "frame.havoc@"+tag, "an unspecified callee may modify anything", False)
+				continue
+			}
+			vc.oblige(st, "frame", fmt.Sprintf("frame[%s]@%s.preserve", f.short, tag), "modifies clause (loop back edge)", f.t)
+		}
+	}
+	if lc == nil {
+		return
 	}
 	pi := predIndex(header, from)
 	over := map[*ssa.Phi]Value{}
@@ -208,12 +236,11 @@ func (vc *VC) loopBackEdge(fr *frame, from, header *ssa.BasicBlock, st *State) {
 
 // dryRunLoop executes the loop region once from the header with obligations and assumptions
 // discarded, and returns the set of heap locations it writes.
-func (vc *VC) dryRunLoop(fr *frame, header *ssa.BasicBlock, st *State) map[string]*writeSet {
+func (vc *VC) dryRunLoop(fr *frame, header *ssa.BasicBlock, st *State, checkpoint int) map[string]*writeSet {
 	saved := vc.writes
 	vc.writes = map[string]*writeSet{}
 	vc.dry++
 	pos := vc.script.Pos()
-	checkpoint := vc.script.nextID
 	savedDefers := len(fr.defers)
 	savedDebug := len(fr.debug)
 	func() {
@@ -240,13 +267,25 @@ func (vc *VC) dryRunLoop(fr *frame, header *ssa.BasicBlock, st *State) map[strin
 		if ws.whole {
 			continue
 		}
+		var keep []Term
 		for _, idx := range ws.idxs {
-			if MaxID(idx) > checkpoint || vc.dependsOnWritten(idx, w) {
+			exp, ok := vc.script.ExpandTo(idx, checkpoint)
+			if !ok || vc.dependsOnWritten(exp, w) {
 				ws.whole = true
-				ws.idxs = nil
+				keep = nil
 				break
 			}
+			dup := false
+			for _, k := range keep {
+				if k.S == exp.S {
+					dup = true
+				}
+			}
+			if !dup {
+				keep = append(keep, exp)
+			}
 		}
+		ws.idxs = keep
 		_ = comp
 	}
 	// propagate to an enclosing dry run
